@@ -58,9 +58,9 @@ fn multi_history(w: usize, reqs: &[Version], evs: &[MEv], bs: u8) -> Result<Opti
                             1 => [vec![0x0b, 0, 0, 0x80], d13].concat(),
                             _ => [vec![0u8; 4], vec![0x0b, 0, 0, 0x80], d13].concat(),
                         };
-                        rtref::responder::ietf_request(&list, None, &nonce(0x1800 + next as u64, 32), 1024)
+                        rtref::responder::ietf_request(&list, None, &nonce(0x1800 + next as u64, 32), REQUEST_SIZES[next % 4])
                     } else {
-                        rtref::responder::std_request(v, &nonce(0x1800 + next as u64, v.nonce_len()))
+                        rtref::responder::classic_request(&nonce(0x1800 + next as u64, 64), REQUEST_SIZES[(next + 1) % 4])
                     };
                     clients[next].send(srvs[t].addr, &r);
                     delivered.push((t, r, v));
@@ -114,6 +114,10 @@ fn multi_history(w: usize, reqs: &[Version], evs: &[MEv], bs: u8) -> Result<Opti
 /// of one process do). Rounds of (request to worker w, step w, statistics hand-off of w); the
 /// reporter drains the queue after round `drain_after` only (a reporter that is late, or slower than
 /// a short status interval). No hand-off may fail or block, every request is answered.
+/// datagram sizes of the requests of one history, in rotation: the usual size, the largest legal
+/// one, and two in between
+const REQUEST_SIZES: [usize; 4] = [1024, 1500, 1200, 1496];
+
 pub fn shared_queue_history(w: usize, workers_per_round: &[usize], drain_after: Option<usize>) -> Result<Option<(String, String)>, String> {
     use roughenough::stats::StatsQueue;
     let cfg = SrvCfg { batch_size: 2, client_stats: true, ..Default::default() };
